@@ -330,7 +330,8 @@ def firstAttempt (rc : RCluster) (plan : List Target) (draw : Nat) : Option Atte
 
 /-- The prepared-statement `RoutingInfo` literal exists THREE times in the code: `Session::execute` (`session.rs:1809-1816`,
 `sessionRoutingInfo` above), `Session::execute_iter` → `QueryPager::new_for_prepared_statement` for the FIRST page
-(`pager.rs:949-966`) and the pager's worker for pages 2+ (`pager.rs:1017-1049`, which recomputes the token). All three
+(`pager.rs:949-966`) and the pager's worker for pages 2+ (`pager.rs:1017-1049`: it CAPTURES the `token` computed for the first page and only
+re-extracts the partition key, for tracing; table spec, LWT flag and preference are read again). All three
 take the same six fields from the same sources (`extract_partition_key_and_calculate_token`, `get_table_spec`,
 `is_confirmed_lwt`, the executor's consistencies, the session's `node_location_preference`); a token error makes the
 pager fail (`NextPageError::PartitionKeyError`). This definition is the pager's copy written out again; that it equals
